@@ -156,7 +156,7 @@ def run(ctx):
           created += 1 if do_create else 0
           ctx.evaluations += 1
           if nontrivial(name):
-            ctx.nontrivial.add(hash((name, hf, kind)) & 0xffffffffffff)
+            ctx.nontrivial.add('%x' % (hash((name, hf, kind)) & 0xffffffffffff))
           # injectivity on the documented class of names
           if kind == 'whisper' and hf and name and ';' not in name and '/' not in name and all(name.split('.')):
             if p in paths and paths[p] != name:
